@@ -327,6 +327,8 @@ def canon_schedules():
         if v2:
             pk += [k.send("A", "v2", d, toT=150) for d in (["ok1", "ok2"], ["ok2", "fail1"], ["fail2"], ["async1"], ["ok"])]
         ph = k.sync("B")
+        if kind == "ORDERED":
+            k.relay("Recv", "B", pk[1], ph)                  # successor first: must be rejected
         for p in pk:
             k.relay("Recv", "B", p, ph)
         k.relay("Recv", "B", pk[0], ph)                      # duplicate relay
@@ -337,6 +339,18 @@ def canon_schedules():
                 k._act("WriteAck" + ("V1" if p["proto"] == "v1" else "V2"), "B", pkt=p, ack=["ok"])
                 k._act("WriteAck" + ("V1" if p["proto"] == "v1" else "V2"), "B", pkt=p, ack=["ok"])   # second write must fail
         ph = k.sync("A")
+        # forged acknowledgements for the first packet, with the genuine proof: all must be rejected
+        first = pk[0]
+        if first["proto"] == "v1":
+            for bad in (["hashok"], ["err"], ["bad"]):
+                k.relay("Ack", "A", first, ph, ack=bad, canon=True)
+            k.relay("Ack", "A", first, ph, ack=["ok"], canon=False)
+        else:
+            k.relay("Ack", "A", first, ph, ack=["ok2", "ok1"], canon=True)      # the honest list reversed
+            k.relay("Ack", "A", first, ph, ack=["ok1"], canon=True)             # truncated
+            k.relay("Ack", "A", first, ph, ack=["SENTINEL"], canon=True)
+        if kind == "ORDERED":
+            k.relay("Ack", "A", pk[1], ph, ack=["err"], canon=True)             # successor's ack first: must be rejected
         for p in pk:
             if all(d.startswith("ok") or d.startswith("async") for d in p["data"]):
                 ack = ["ok"] if p["proto"] == "v1" else [d if d in ("ok1", "ok2") else "ok" for d in p["data"]]
